@@ -101,6 +101,60 @@ MUTS={
         if value == self._value:
             return
         self._value = value""")),
+ # --- audit 3: A* = the check must be red with a judged replay; H* = harmless (text-conforming) changes: at most no-failing-input-found
+ "C09-A1-unsubscribe-deletes-after-request": ("C09", lambda: (rep(EH, """        # Remove registration before potential device errors
+        del self._subscriptions[sid]
+""", ""), rep(EH, """        response_status, response_headers, _ = await self._requester.async_http_request(
+            "UNSUBSCRIBE", service.event_sub_url, headers
+        )
+""", """        try:
+            response_status, response_headers, _ = await self._requester.async_http_request(
+                "UNSUBSCRIBE", service.event_sub_url, headers
+            )
+        finally:
+            self._subscriptions.pop(sid, None)
+"""))),
+ "C09-A2-timeout-seconds-drops-days": ("C09", lambda: rep(EH, 'str(int(timeout.total_seconds()))', 'str(timeout.seconds)', 2)),
+ "C09-H3-unconfirmed-unsubscribe-returns-sid": ("C09", lambda: rep(EH, """            _LOGGER.debug("Did not receive 200, but %s", response_status)
+            raise UpnpResponseError(status=response_status, headers=response_headers)
+
+        return sid""", """            _LOGGER.debug("Did not receive 200, but %s", response_status)
+
+        return sid""")),
+ "C09-H4-empty-sid-is-missing-sid": ("C09", lambda: rep(EH, 'if "sid" not in response_headers:', 'if not response_headers.get("sid"):')),
+ "C10-A1-non-evented-variables-skipped": ("C10", lambda: rep(CL, """            state_var = self.state_variable(name)
+            try:""", """            state_var = self.state_variable(name)
+            if not state_var.send_events:
+                continue
+            try:""")),
+ "C10-H2-stamp-on-conversion-error": ("C10", lambda: rep(CL, """            self._value = UpnpStateVariable.UPNP_VALUE_ERROR
+""", """            self._value = UpnpStateVariable.UPNP_VALUE_ERROR
+            self._updated_at = datetime.now(timezone.utc)
+""")),
+ "C11-A1-yield-before-replay": ("C11", lambda: rep(EH, """            for item in self._backlog[sid]:
+                await self.handle_notify(item[0], item[1])""", """            await asyncio.sleep(0)
+            for item in self._backlog[sid]:
+                await self.handle_notify(item[0], item[1])""")),
+ "C11-H2-coalesced-replay-single-callback": ("C11", lambda: (rep(EH, """        # decode event and send updates to service
+        changes = {}""", """        service.notify_changed_state_variables(self._decode_event(body))
+        return HTTPStatus.OK
+
+    @staticmethod
+    def _decode_event(body: str) -> Dict[str, str]:
+        changes = {}"""), rep(EH, """                changes[name] = value
+
+        # send changes to service
+        service.notify_changed_state_variables(changes)
+
+        return HTTPStatus.OK""", """                changes[name] = value
+        return changes"""), rep(EH, """            for item in self._backlog[sid]:
+                await self.handle_notify(item[0], item[1])
+            del self._backlog[sid]""", """            merged: Dict[str, str] = {}
+            for item in self._backlog.pop(sid):
+                for name, value in self._decode_event(item[1]).items():
+                    merged.pop(name, None)
+                    merged[name] = value
+            service.notify_changed_state_variables(merged)"""))),
  "C11-M1-replay-newest-only": ("C11", lambda: rep(EH, "for item in self._backlog[sid]:", "for item in self._backlog[sid][-1:]:")),
  "C11-M2-delete-before-replay": ("C11", lambda: rep(EH, """            for item in self._backlog[sid]:
                 await self.handle_notify(item[0], item[1])
